@@ -6,6 +6,7 @@ import (
 	"encoding/json"
 	"fmt"
 	"os"
+	"sort"
 	"strings"
 	"testing"
 
@@ -86,5 +87,30 @@ func TestShow(t *testing.T) {
 	if el != "" {
 		fmt.Println("----- engine log")
 		fmt.Println(el)
+	}
+}
+
+// TestNodes prints the reference status of every node for a replay case (development aid).
+func TestNodes(t *testing.T) {
+	rp := os.Getenv("VERIF_NODES")
+	if rp == "" {
+		t.Skip()
+	}
+	raw, _ := os.ReadFile(rp)
+	var wrap struct {
+		Case *vcase.Case `json:"case"`
+	}
+	if err := json.Unmarshal(raw, &wrap); err != nil {
+		t.Fatal(err)
+	}
+	c := wrap.Case
+	m := vcase.NewModel(c.Main, c.Subs, vcase.NormalizeInput(c.Main, c.InputDoc), c.Script, nil)
+	var ids []string
+	for id := range m.Nodes {
+		ids = append(ids, id)
+	}
+	sort.Strings(ids)
+	for _, id := range ids {
+		fmt.Println(id, m.Nodes[id])
 	}
 }
